@@ -739,7 +739,9 @@ def exec_mutation(world, actor, rec):
             if exc is None and op in ("close", "clear") or not sc_bad:
                 actor.sc_dirty = False
     for clause, detail in bad:
-        world.find({"C06"} if clause.endswith("view_not_live") else {iprop}, clause, rec, actor.kind,
+        # (a state that breaks the incidence invariants cannot equal any state of the reference
+        # model either, so the refinement property C05 is violated by the same step)
+        world.find({"C06"} if clause.endswith("view_not_live") else {iprop, "C05"}, clause, rec, actor.kind,
                    f"after {'raising ' + type(exc).__name__ if exc else 'returning'}: {detail}")
     if bad:
         actor.snap = post
